@@ -373,7 +373,7 @@ pub fn run(ctx: &Ctx) {
         ctx.check_case("regress", check_sampled(ctx, &s), || json!({"regress": p}));
     }
     run_exhaustive(ctx, ctx.tier == crate::core::Tier::Thorough);
-    let cases = ctx.tier.pick(20_000, 1_000_000);
+    let cases = ctx.tier.pick(100_000, 1_000_000);
     ctx.run_prop("sampled", sampled_strategy(), cases, sampled_json, |s| check_sampled(ctx, s));
 }
 
